@@ -43,6 +43,10 @@ def gen_cases(tier: str, seed: int) -> list[dict]:
     for first in ("RunTask", "CompleteTask", "StartTask", "CompleteStage"):
         for sp in range(3):
             cases.append({"kind": "fault_pair", "first": first, "spec": sp, "seed": seed, "sample": 30 if tier == "quick" else 300})
+    for sp in (3, 4):
+        # a task body that raises: RunTask's error-recording save x the CancelStage of the same stage
+        cases.append({"kind": "fault_pair", "first": "RunTask", "spec": sp, "seed": seed, "nofault": True, "sample": 60 if tier == "quick" else 600})
+        cases.append({"kind": "fault_pair", "first": "RunTask", "spec": sp, "seed": seed, "sample": 30 if tier == "quick" else 300})
     return cases
 
 
@@ -207,7 +211,9 @@ def _fault_pair(case: dict) -> dict:
     from .. import interleave as il
     from ..world import World
 
-    spec = [specs.chain(2), specs.multitask(), specs.polling(1)][case["spec"]]
+    raising = {"name": "raising", "confluent": True, "stages": [specs.st("a", [], [{"kind": "raise"}], ctx={"continuePipelineOnFailure": True}), specs.st("b", ["a"])]}
+    raising2 = {"name": "raising2", "confluent": True, "stages": [specs.st("a"), specs.st("b", ["a"], [dict(specs.OK), {"kind": "raise"}]), specs.st("c", ["b"])]}
+    spec = [specs.chain(2), specs.multitask(), specs.polling(1), raising, raising2][case["spec"]]
     obs: Counter = Counter()
     edges: Counter = Counter()
     violations: list = []
@@ -260,19 +266,25 @@ def _fault_pair(case: dict) -> dict:
             na, nb = il.solo_length(db, pair[0]), il.solo_length(db, pair[1])
             solo, _info = il.run_pair(db, [pair[0]], il.Segments([("W0", 10**6)]), drain=False)
             ncommits = len([c for c in (solo.commits if solo else []) if c[3]]) or 3
-            for n in range(min(ncommits, 4)):
+            # n = None: no injected fault at all - the handler's own error-recording path (a task that raises) racing
+            # the CancelStage is enough to make its save lose the optimistic lock and retry
+            for n in ([None] if case.get("nofault") else range(min(ncommits, 4))):
                 # every single-preemption schedule (the other worker runs to completion at each yield point of the
                 # first, in particular between the failed commit and the retry) + a sample of two-preemption ones
                 one = il.bound_schedules(na + 8, nb, 1)
                 two = il.bound_schedules(na + 8, nb, 2, sample=case["sample"], rng=rng)[len(one):]
                 scheds = one + (rng.sample(two, min(len(two), case["sample"])) if two else [])
                 for sc in scheds:
-                    fp = il.nth_commit_failpoint("W0", n)
+                    fp = il.nth_commit_failpoint("W0", n if n is not None else 10**9)
                     run, info = il.run_pair(db, pair, il.Segments(sc), failpoint=fp)
                     obs["evaluations"] += 1
                     if run is None:
                         obs["scheduler_watchdog"] += 1
                         continue
+                    if n is None:
+                        obs["error_path_pair_runs"] += 1
+                        if info["switches"]:
+                            keys.add(f"errpair:{case['first']}:{spec['name']}:{info['trace_hash']}")
                     if fp.state["fired"]:
                         obs["commit_fault_pair_runs"] += 1
                         if info["switches"]:
